@@ -2,9 +2,11 @@
 threads; None restores auto-detection (trickery on CPython).  Pure stdlib + stackscope, Python 3.9 syntax.
 """
 import queue
+import sys
 import threading
 import warnings
 
+import stackscope
 from stackscope import extract
 from stackscope.lowlevel import set_trickery_enabled
 
@@ -398,7 +400,63 @@ def run_bare_namespace(req):
     return {"obs": obs[:3], "stats": {"points": 8}}
 
 
+def run_sampled(req):
+    """the calling thread inspects its own running frames while ANOTHER thread does nothing but look at them too
+    (sys._current_frames() and a walk along f_back - a sampling profiler, a watchdog): every result must be exact"""
+    import threading
+    n = req.get("n", 3000)
+    stop = []
+    main_id = threading.get_ident()
+
+    def sampler():
+        while not stop:
+            f = sys._current_frames().get(main_id)
+            while f is not None:
+                f = f.f_back
+
+    class CM:
+        def __enter__(self):
+            return self
+
+        def __exit__(self, *a):
+            return False
+
+    def level2(outer):
+        with warnings.catch_warnings(record=True) as w:
+            warnings.simplefilter("always")
+            st = stackscope.extract_since(outer)
+        return st, w
+
+    def level1(bad):
+        me = sys._getframe()
+        with CM() as cm:
+            with CM() as cm2:
+                st, w = level2(me)
+        got = [(c.obj, c.is_exiting, c.varname) for c in st.frames[0].contexts] if st.frames else None
+        if got != [(cm, False, "cm"), (cm2, False, "cm2")] or w or st.error is not None:
+            bad.append({"kind": "run.sampled_by_another_thread", "got": repr(got)[:300],
+                        "warnings": [str(x.message)[:200] for x in w][:2], "error": repr(st.error)})
+
+    old = sys.getswitchinterval()
+    sys.setswitchinterval(1e-5)
+    th = threading.Thread(target=sampler, daemon=True)
+    th.start()
+    bad = []
+    try:
+        for i in range(n):
+            level1(bad)
+            if len(bad) >= 3:
+                break
+    finally:
+        stop.append(1)
+        th.join(30)
+        sys.setswitchinterval(old)
+    return {"obs": bad[:3], "stats": {"extractions": n}}
+
+
 def handle(req):
+    if req["op"] == "modes.sampled":
+        return run_sampled(req)
     if req["op"] == "modes.bare_namespace":
         return run_bare_namespace(req)
     if req["op"] == "modes.near_limit":
